@@ -28,15 +28,16 @@ Print Assumptions C03_schema_invariant_step_partial.
 
 (* What Conforms says about a list that carries a List spec: sizes within the declared bounds, every leaf item accepted by
    the element spec and mapped to itself, every dict / list item routed by the element spec to a Dict / List spec (or Any)
-   and carrying exactly that spec, MISSING_VALUE only when the value was made partial. *)
+   and carrying exactly that spec ([carries]; a field that routes it to Any binds nothing, and the item answers for itself with
+   whatever spec it carries), MISSING_VALUE only when the value was made partial. *)
 Theorem C03_conforms_list : forall ev P st ps i pa pt fl its e mn mx m,
   Conforms ev P st -> get_at st ps = Some (Node i KList pa pt fl its) -> spec_at ev (f_spec fl) = Some (SList e mn mx m) ->
   mn <= count_present its /\ count_present its <= zlen its /\ (forall mm, mx = Some mm -> zlen its <= mm) /\
   (forall k l, In (k, Leaf l) its -> exists p', apply p' e (leaf_pv l) = Ok (leaf_pv l)) /\
   (forall k j kd pa' pt' fl' its', In (k, Node j kd pa' pt' fl' its') its ->
      match kd with
-     | KDict => route true e = true /\ f_spec fl' = ref_opt ev (bound_for true e)
-     | KList => route false e = true /\ f_spec fl' = ref_opt ev (bound_for false e)
+     | KDict => route true e = true /\ carries ev fl' (bound_for true e)
+     | KList => route false e = true /\ carries ev fl' (bound_for false e)
      | KObj c => exists p', apply p' e (obj_pv c) = Ok (obj_pv c)
      end) /\
   (good e = true -> part P fl = false -> forall k, ~ In (k, Leaf LMissing) its).
